@@ -56,6 +56,50 @@ func (c *Ctx) ruleRetryRequeue(rr *RuleRep, rr18 *RuleRep, modeOpt ...string) {
 		}
 	})
 	if snap == nil {
+		// the queue taken over instead of copied: `old := c.retryQueue; c.retryQueue = nil` — the field is reset before
+		// anything is added to it, so later appends go to a fresh array and the old one belongs to the task alone
+		eachInstr(f, func(in ssa.Instruction) {
+			ia, ok := in.(*ssa.IndexAddr)
+			if !ok || snap != nil {
+				return
+			}
+			ld, ok := c.Resolve(ia.X).(*ssa.UnOp)
+			if !ok || ld.Op != token.MUL || ld.Parent() != f {
+				return
+			}
+			if _, isRQ := isLoadOfField(ld, a.RetryQueue); !isRQ {
+				return
+			}
+			var reset *ssa.Store
+			for _, st := range storesToField(f, a.RetryQueue) {
+				if isNilConst(st.Val) && Dominated(f, st, func(x ssa.Instruction) bool { return x == ssa.Instruction(ld) }, PathQ{}) {
+					reset = st
+				}
+			}
+			if reset == nil {
+				return
+			}
+			// nothing is stored into the queue between the load and the reset
+			if _, dirty := CanReach(f, ld, func(x ssa.Instruction) bool {
+				st, isSt := x.(*ssa.Store)
+				if !isSt || st == reset {
+					return false
+				}
+				_, isRQ := isAddrOfField(st.Addr, a.RetryQueue)
+				return isRQ
+			}, PathQ{BlockInstr: func(x ssa.Instruction) bool { return x == ssa.Instruction(reset) }}); dirty {
+				return
+			}
+			if ia.X == ssa.Value(ld) {
+				snap = ld
+			} else if v, isVal := ia.X.(ssa.Value); isVal {
+				if _, isInstr := v.(ssa.Instruction); isInstr {
+					snap = v // the local the taken-over queue travels in
+				}
+			}
+		})
+	}
+	if snap == nil {
 		rr.Bad(key+"/snapshot", f.Pos(), "Retry does not take a private copy of the retry queue before processing it")
 		return
 	}
